@@ -29,11 +29,11 @@ type Reader struct {
 // A frame adds at most this many bytes of overhead to some data by prefixing
 // the data with:
 //
-//	1: control byte
-//	9: maximum varint stream id
-//	9: maximum varint message id
-//	9: maximum varint data length
-const maxFrameOverhead = 1 + 9 + 9 + 9
+//	 1: control byte
+//	10: maximum varint stream id
+//	10: maximum varint message id
+//	10: maximum varint data length
+const maxFrameOverhead = 1 + 10 + 10 + 10
 
 // NewReader constructs a Reader to read Packets from the io.Reader.
 func NewReader(r io.Reader) *Reader {
